@@ -1,0 +1,11 @@
+//go:build verif
+
+package utils
+
+// Contracts for the verification framework in /verif (comment-only).
+
+//@ func [C12,C18] WantENIIP
+//@   requires spec != nil
+//@   modifies nothing
+//@   loop 0 invariant true
+//@   loop 1 invariant true
